@@ -155,7 +155,7 @@ NS_PREFIXES = [toks(x) for x in (
     "::boost::msm::backmp11::", "boost::msm::backmp11::", "::boost::msm::front::", "boost::msm::front::",
     "::boost::msm::", "boost::msm::", "msm::back::", "msm::back11::", "msm::front::", "back11::", "back::", "backmp11::",
     "::boost::fusion::", "boost::fusion::", "::boost::mpl::", "boost::mpl::", "mpl::", "mp11::",
-    "::boost::", "boost::", "::std::", "std::", "detail::")]
+    "::boost::", "boost::", "::std::", "std::", "detail::", "placeholders::")]
 
 def rule_ns(tk, F):
     out = []; i = 0
@@ -228,7 +228,7 @@ def rule_stmt_macros(tk, F):
                     elif x == ',' and d == 0: inner = inner[:k]; break
             out += [T('__CPROVER_assert', t.line), T('(', t.line)] + inner + [T(',', t.line), T('"BOOST_ASSERT"', t.line), T(')', t.line)]
             F.hit('ASSERT'); i = e + 1; continue
-        if t == 'static_assert' and tk[i + 1] == '(':
+        if t in ('static_assert', 'BOOST_STATIC_ASSERT', 'BOOST_MPL_ASSERT', 'BOOST_STATIC_ASSERT_MSG') and tk[i + 1] == '(':
             e = match_close(tk, i + 1, '(', ')'); F.hit('DROP'); i = e + 1
             if i < len(tk) and tk[i] == ';': i += 1
             continue
